@@ -149,8 +149,15 @@ def run(sc):
         if n.silent:
             continue
         if kind == 3:
-            def tcb(cookie, n=n):
+            def tcb(cookie, n=n, s=s):
                 sim.log({"ev": "timer", "node": n.name})
+                if "send" in s:         # a submission from inside a timer callback (job thread context)
+                    q = s["send"]
+                    data = q["data"] if "data" in q else payload(q["size"], q.get("salt", 0))
+                    tl, ff = q.get("time_limit", 0), q.get("ff", 3)
+                    sim.api(n, "send_pgn", lambda: n.ecu.send_pgn(q["dp"], q["pf"], q["ps"], q["prio"], q["sa"], list(data),
+                                                                  tl / 1e6 if tl else 0, ff),
+                            dp=q["dp"], pf=q["pf"], ps=q["ps"], prio=q["prio"], sa=q["sa"], data=list(data), tl=tl, ff=ff)
                 return False
             sim.api(n, "add_timer", lambda n=n, s=s: n.ecu.add_timer(s["delta"] / 1e6, tcb), delta=s["delta"])
             continue
